@@ -56,7 +56,7 @@ func symLines(n int) []string {
 	free := sym.Choice("free_line_at", n+1) // position of the free-form line (n = none)
 	for i := range lines {
 		if i == free {
-			lines[i] = sym.StringNAlpha("free", tier(6, 8), "#@grog :a\t")
+			lines[i] = sym.StringNAlpha("free", tier(6, 7), "#@grog :a\t")
 		} else {
 			lines[i] = lineMenu[sym.Choice(fmt.Sprintf("line_%d", i), len(lineMenu))]
 		}
@@ -156,7 +156,7 @@ func checkDocs(lines []string, id string) {
 // P1: any sequence of lines yields a package or an error from the Makefile parser - never a panic
 func VerifC16_P_makefile() {
 	yamlCalls = 0
-	n := 1 + sym.Choice("n_lines", tier(3, 4))
+	n := 1 + sym.Choice("n_lines", 3)
 	lines := symLines(n)
 	p := newMakefileParser(bufio.NewScanner(sym.LinesReader(lines)))
 	yamlDocs = nil
@@ -190,7 +190,7 @@ func VerifC16_P_makefile() {
 // P2: same for the script (*.grog.sh / *.grog.py) parser
 func VerifC16_P_script() {
 	yamlCalls = 0
-	n := 1 + sym.Choice("n_lines", tier(3, 4))
+	n := 1 + sym.Choice("n_lines", 3)
 	lines := symLines(n)
 	p := newScriptParser(bufio.NewScanner(sym.LinesReader(lines)), "/w/p/tool.grog.sh")
 	yamlDocs = nil
